@@ -19,6 +19,7 @@ import json
 import multiprocessing
 import os
 from concurrent.futures import ProcessPoolExecutor
+from concurrent.futures.process import BrokenProcessPool
 from fractions import Fraction as Fr
 
 from lib import straxlib as sl
@@ -1266,19 +1267,73 @@ def _components(ctx):
 GROUPS = [("findpeaks",), ("sumwf", "store"), ("merge",), ("replace", "lone"), ("split",), ("splitreal",), ("sma", "iof", "widths", "hdr")]
 
 
-def evaluate(comps):
+CRASH = "err Crash"
+
+
+def _run_isolated(job):
+    """run one job in a fresh single-worker pool; None if the worker died"""
+    mp = multiprocessing.get_context("fork")
+    try:
+        with ProcessPoolExecutor(max_workers=1, mp_context=mp) as ex:
+            return ex.submit(_worker, job).result()
+    except BrokenProcessPool:
+        return None
+
+
+def isolate_crash(job, notes, max_launches=60, want=3):
+    """A worker died (numba code without bounds checks can corrupt memory). Re-run the job's components in
+    fresh processes: first whole, then in chunks of 64, then by bisection inside dying chunks, until `want`
+    single cases are pinned or `max_launches` processes were spent. A pinned case gets the output `err Crash`
+    (which no oracle and no model accepts); cases that could not be resolved get no result (None) and are left
+    out of the comparison — the caller records a violation without input if nothing could be pinned."""
+    out = {}
+    for name, kind, cases in job:
+        res = _run_isolated([(name, kind, cases)])
+        if res is not None:
+            out.update(res)
+            continue
+        results = [None] * len(cases)
+        todo = [(lo, min(lo + 64, len(cases))) for lo in range(0, len(cases), 64)][::-1]
+        pinned, launches = 0, 0
+        while todo and launches < max_launches and pinned < want:
+            lo, hi = todo.pop()
+            launches += 1
+            r = _run_isolated([(name, kind, cases[lo:hi])])
+            if r is not None:
+                results[lo:hi] = r[name]
+            elif hi - lo == 1:
+                results[lo] = (CRASH, None)
+                pinned += 1
+            else:
+                mid = (lo + hi) // 2
+                todo += [(mid, hi), (lo, mid)]
+        unresolved = sum(1 for r in results if r is None)
+        notes.append((name, pinned, unresolved))
+        out[name] = results
+    return out
+
+
+def evaluate(comps, notes=None):
     """run the implementation side of all components in parallel forked workers"""
+    notes = [] if notes is None else notes
     jobs = [[] for _ in GROUPS]
     for name, kind, cases, *_ in comps:
         gi = next(i for i, g in enumerate(GROUPS) if kind in g)
         jobs[gi].append((name, kind, cases))
-    # split the big find_peaks / helper groups further so that no worker dominates
+    jobs = [j for j in jobs if j]
     mp = multiprocessing.get_context("fork")
     results = {}
+    crashed = []
     with ProcessPoolExecutor(max_workers=min(len(GROUPS), os.cpu_count() or 2), mp_context=mp) as ex:
-        futs = [ex.submit(_worker, j) for j in jobs if j]
-        for f in futs:
-            results.update(f.result())
+        futs = [(j, ex.submit(_worker, j)) for j in jobs]
+        for j, f in futs:
+            try:
+                results.update(f.result())
+            except BrokenProcessPool:
+                crashed.append(j)
+    # a dying worker breaks the whole pool: every job without a result is re-run in isolation
+    for j in crashed:
+        results.update(isolate_crash(j, notes))
     return results
 
 
@@ -1287,8 +1342,18 @@ KNOWN_PHRASES = (KNOWN_TAIL, KNOWN_DURATION)
 
 def run(ctx):
     comps = _components(ctx)
-    results = evaluate(comps)
+    notes = []
+    results = evaluate(comps, notes)
+    for name, pinned, unresolved in notes:
+        ctx.note(f"{name}: a worker process died while running the real code; {pinned} input(s) pinned, {unresolved} left out")
+        if not pinned:
+            ctx.violation(name, "correspondence", None, {"crash": "worker process died (memory corruption in a numba kernel?)",
+                                                         "unresolved_cases": unresolved},
+                          f"the real code runs the {name} inputs without crashing the process", False)
     for name, kind, cases, to_op, oracle, kw in comps:
+        keep = [i for i, r in enumerate(results[name]) if r is not None]
+        cases = [cases[i] for i in keep]
+        results[name] = [results[name][i] for i in keep]
         table = {json.dumps(c, sort_keys=True): r for c, r in zip(cases, results[name])}
         seen = {k: 0 for k in KNOWN_PHRASES}
 
@@ -1296,6 +1361,8 @@ def run(ctx):
             return table[json.dumps(c, sort_keys=True)][0]
 
         def orc(c, o, table=table, oracle=oracle, seen=seen):
+            if o == CRASH:
+                return "the real code crashed the worker process on this input (memory corruption in a numba kernel)"
             msg = oracle(c, o, table[json.dumps(c, sort_keys=True)][1])
             # the engine keeps 5 violations per component: a recorded finding must not use them all up,
             # otherwise it would mask any OTHER violation of the same component
@@ -1315,11 +1382,13 @@ def search(ctx):
     """an obligation broke: larger oracle-only sweep on the real code"""
     import random
     sub = type("C", (), {})()
-    sub.rng, sub.pick = random.Random(ctx.seed + 77), (lambda q, t: t)
-    comps = [c for c in _components(sub) if c[1] != "splitreal"]
+    sub.rng, sub.pick = random.Random(ctx.seed + 77), (lambda q, t: q)
+    comps = [c for c in _components(sub) if c[1] != "splitreal" and not c[0].endswith("/exhaustive")]
     results = evaluate(comps)
     for name, kind, cases, _to_op, oracle, _kw in comps:
-        table = {json.dumps(c, sort_keys=True): r for c, r in zip(cases, results[name])}
+        keep = [i for i, r in enumerate(results[name]) if r is not None]
+        cases = [cases[i] for i in keep]
+        table = {json.dumps(c, sort_keys=True): results[name][i] for c, i in zip(cases, keep)}
         ctx.check_oracle("search/" + name, cases, lambda c, t=table: t[json.dumps(c, sort_keys=True)][0],
                          lambda c, o, t=table, oracle=oracle: oracle(c, o, t[json.dumps(c, sort_keys=True)][1]))
 
